@@ -144,7 +144,25 @@ def _req(a, b):
     """equality of two symbolic reals / plain numbers as a condition"""
     a = a.item() if isinstance(a, np.ndarray) else a
     b = b.item() if isinstance(b, np.ndarray) else b
+    if isinstance(a, core.FloatNaN) or isinstance(b, core.FloatNaN):
+        return False
     return a == b
+
+
+def _rsum(x, **kw):
+    """the `sum=` the moment functions are parametrised with: np.sum, with an exact-real zero added so that the sum of an
+    empty block is a real 0.0 (as for float arrays) rather than the Python int 0 object arrays would give"""
+    return np.sum(x, **kw) + SymReal._of(0)
+
+
+class _ieee:
+    """x/0 -> NaN inside the block (the repository's functions run under np.errstate(ignore))"""
+
+    def __enter__(self):
+        core.IEEE_DIV = True
+
+    def __exit__(self, *a):
+        core.IEEE_DIV = False
 
 
 def inst_mean(sizes, two_level):
@@ -174,11 +192,12 @@ def inst_moment(sizes, order, ddof, two_level):
         import dask_array.reductions._common as C
 
         xs = _sym_data(E, n)
-        parts = [C.moment_chunk(g, order=order, dtype=object, axis=(0,), keepdims=True) for g in _groups(xs, sizes)]
-        if two_level and len(parts) > 2:
-            left = C.moment_combine(parts[:2], order=order, ddof=ddof, dtype=object, axis=(0,))
-            parts = [left] + parts[2:]
-        res = C.moment_agg(parts, order=order, ddof=ddof, dtype=object, axis=(0,), keepdims=True)
+        with _ieee():
+            parts = [C.moment_chunk(g, order=order, sum=_rsum, dtype=object, axis=(0,), keepdims=True) for g in _groups(xs, sizes)]
+            if two_level and len(parts) > 2:
+                left = C.moment_combine(parts[:2], order=order, ddof=ddof, sum=_rsum, dtype=object, axis=(0,))
+                parts = [left] + parts[2:]
+            res = C.moment_agg(parts, order=order, ddof=ddof, sum=_rsum, dtype=object, axis=(0,), keepdims=True)
         mu = sum(xs[1:], xs[0]) / n
         m = sum([(v - mu) ** order for v in xs[1:]], (xs[0] - mu) ** order) / (n - ddof)
         return _req(res, m)
@@ -223,6 +242,41 @@ def inst_arg(sizes, which, two_level):
                     unit="arg_chunk/_arg_combine/arg_agg", cost=2 ** n)
 
 
+def inst_arg_nd(chunks, which):
+    """argmin/argmax over all axes (axis=None) of a 2-D array: first extremum in NumPy's flat (row-major) order"""
+    shape = tuple(sum(c) for c in chunks)
+
+    def body(E):
+        import dask_array.reductions._common as C
+        from dask_array._core_utils import _concatenate2
+
+        xs = np.array([E.real(f"x{i}") for i in range(int(np.prod(shape)))], dtype=object).reshape(shape)
+        func, argfunc = (np.min, np.argmin) if which == "argmin" else (np.max, np.argmax)
+        cs = [cumsum0(c) for c in chunks]
+        nested = []
+        for i in range(len(chunks[0])):
+            row = []
+            for j in range(len(chunks[1])):
+                blk = xs[cs[0][i]:cs[0][i + 1], cs[1][j]:cs[1][j + 1]]
+                row.append(C.arg_chunk(func, argfunc, blk, (0, 1), ((cs[0][i], cs[1][j]), shape)))
+            nested.append(row)
+        data = _concatenate2(nested, axes=[0, 1])
+        res = C.arg_agg(argfunc, data, axis=(0, 1), keepdims=True)
+        res = int(np.asarray(res).ravel()[0])
+        flat = xs.ravel()
+        best = flat[res]
+        conds = []
+        for j, v in enumerate(flat):
+            if j < res:
+                conds.append(v > best if which == "argmin" else v < best)
+            elif j > res:
+                conds.append(v >= best if which == "argmin" else v <= best)
+        return AND(*conds) if conds else True
+
+    return Instance(f"{which}_flat[chunks={chunks}]", body, dict(chunks=chunks, which=which), unit="arg_chunk/_arg_combine/arg_agg",
+                    cost=2 ** int(np.prod(shape)))
+
+
 def instances(tier):
     q = tier == "quick"
     out = []
@@ -234,6 +288,9 @@ def instances(tier):
                 continue
             out.append(inst_tree((m,), 0, se, False))
     out.append(inst_tree((3,), 0, {0: 2}, True))
+    out.append(inst_tree((4,), 0, {0: 1}, False))
+    out.append(inst_tree((3,), 0, {0: 3}, False))
+    out.append(inst_tree((2,), 0, 1, False))
     out.append(inst_tree((2, 3), 1, 2, False))
     out.append(inst_tree((3, 2), 0, 2, True))
     out.append(inst_tree((4, 2), 0, 3, False))
@@ -250,6 +307,13 @@ def instances(tier):
         if sum(s) <= 5:
             out.append(inst_arg(s, "argmin", len(s) > 2))
             out.append(inst_arg(s, "argmax", False))
+    # zero-length chunks inside a multi-level tree
+    out.append(inst_mean((2, 0, 1), True))
+    out.append(inst_moment((2, 0, 1), 2, 0, True))
+    out.append(inst_moment((0, 2, 2), 2, 1, True))
+    out.append(inst_arg_nd(((2,), (1, 1)), "argmin"))
+    out.append(inst_arg_nd(((1, 1), (2,)), "argmax"))
+    out.append(inst_arg_nd(((1, 1), (1, 1)), "argmin"))
     out.append(inst_moment((2, 2), 3, 0, False))
     out.append(inst_moment((2, 1, 2), 3, 0, True))
     if not q:
